@@ -619,6 +619,23 @@ def run(ctx):
                               f"{(r.get('exception') or {}).get('msg', r.get('msg', ''))[:200]})\n{P.prog_text(p)}")
             continue
         live.append(i)
+    # goals for which Polar printed a formula in n: ask sympy (in a worker, in the background) for the limit of
+    # that formula taken with a single integer symbol n, to keep checking the value a repaired Polar would print
+    import threading
+    limit_tasks, limit_keys = [], []
+    for i in live:
+        for gi, gr in enumerate(results[i]["goals"]):
+            if gr.get("after_loop_value", "").startswith("?"):
+                limit_tasks.append({"kind": "limit", "expr": gr["after_loop"], "timeout": 40})
+                limit_keys.append((i, gi))
+    lres_box = {}
+
+    def _limits():
+        _t0 = _time.time()
+        lres_box["res"] = lib.run_tasks(limit_tasks, timeout=40, jobs=6) if limit_tasks else []
+        lres_box["s"] = round(_time.time() - _t0, 1)
+    lthread = threading.Thread(target=_limits)
+    lthread.start()
     # ---- exact oracle + guard agreement ------------------------------------------------------
     ofiles, ometa = [], {}
     for i in live:
@@ -708,7 +725,6 @@ def run(ctx):
     # ---- comparisons ---------------------------------------------------------------------------
     stat = {"cond_seq_agree": 0, "numden_agree": 0, "exit_validated_all_n": 0, "exit_unsupported": 0, "limit_proved_shape": 0,
             "limit_validated_far": 0, "limit_not_taken": 0, "divergent_reported_infinite": 0, "undefined_at_n": 0}
-    limit_tasks, limit_meta = [], []
     pending_b = []
     for i in live:
         p, goals, tag = progs[i]
@@ -832,16 +848,11 @@ def run(ctx):
             far = [ratio_rows(ex["rows"], ms, g, n) for n in (N, (N + NF) // 2, NF)]
             pending_b.append({"i": i, "gi": gi, "g": g, "gr": gr, "exp": exp, "far": far, "collapse": collapse and bad is not None,
                               "text": text, "gname": gname})
-            if pv.startswith("?"):
-                limit_tasks.append({"kind": "limit", "expr": gr["after_loop"], "timeout": 60})
-                limit_meta.append(len(pending_b) - 1)
-    _t = _time.time()
-    lres = lib.run_tasks(limit_tasks, timeout=60) if limit_tasks else []
-    phases["limit_tasks_s"] = round(_time.time() - _t, 1)
+    lthread.join()
+    phases["limit_tasks_s(background)"] = lres_box.get("s")
     ctx.coverage["phase_seconds"] = phases
-    repaired = {}
-    for idx, lr in zip(limit_meta, lres):
-        repaired[idx] = lr
+    by_key = dict(zip(limit_keys, lres_box.get("res", [])))
+    repaired = {idx: by_key[(b["i"], b["gi"])] for idx, b in enumerate(pending_b) if (b["i"], b["gi"]) in by_key}
     for idx, b in enumerate(pending_b):
         gr, exp, far, text, gname = b["gr"], b["exp"], b["far"], b["text"], b["gname"]
         pv = gr.get("after_loop_value", "")
